@@ -62,6 +62,45 @@ M = [
  ("compute-swap-spread-sub", "C02", PN+"terraswap_pair/src/helpers.rs", '(offer_amount * exchange_rate).saturating_sub(return_amount);', '(offer_amount * exchange_rate) - return_amount;', True),
  ("trio-ramp-min-blocks-dropped", "C04", PN+"stableswap_3pool/src/commands.rs", 'if ramp.future_block < env.block.height + MIN_RAMP_BLOCKS {', 'if ramp.future_block < env.block.height {', True),
  ("open-flow-fee-amount-wrong", "C12", PN+"incentive/src/execute/open_flow.rs", 'amount: vec![Coin {\n                        amount: flow_fee.amount,\n                        denom: flow_fee_denom,', 'amount: vec![Coin {\n                        amount: paid_amount,\n                        denom: flow_fee_denom,', True),
+
+ # ---- session 3: rules added after the second mutation round --------------------------------------------------
+ ("trio-compute_d-c-uses-b", "C04", PN+"stableswap_3pool/src/stableswap_math/curve.rs", 'let amount_c_times_coins = amount_c.checked_mul(N_COINS.into()).unwrap();', 'let amount_c_times_coins = amount_b.checked_mul(N_COINS.into()).unwrap();', True),
+ ("trio-mint-helper-crossed", "C04", PN+"stableswap_3pool/src/stableswap_math/curve.rs", 'swap_amount_c.checked_add(deposit_amount_c).unwrap(),', 'swap_amount_c.checked_add(deposit_amount_b).unwrap(),', True),
+ ("trio-mint-call-deposits-swapped", "C04", PN+"stableswap_3pool/src/commands.rs", '.compute_mint_amount_for_deposit(\n                deposits[0],\n                deposits[1],', '.compute_mint_amount_for_deposit(\n                deposits[1],\n                deposits[0],', True),
+ ("trio-ramp-up-divide-first", "C04", PN+"stableswap_3pool/src/stableswap_math/curve.rs",
+  '.checked_sub(self.initial_amp_factor)?;\n                let amp_delta = (amp_range as u128)\n                    .checked_mul(time_delta.to_u128()?)?\n                    .checked_div(time_range.to_u128()?)?',
+  '.checked_sub(self.initial_amp_factor)?;\n                let amp_delta = (amp_range as u128)\n                    .checked_div(time_range.to_u128()?)?\n                    .checked_mul(time_delta.to_u128()?)?', True),
+ ("pair-slippage-stable-ge", "C15", PN+"terraswap_pair/src/helpers.rs", 'if pool_ratio * one_minus_slippage_tolerance > deposit_ratio {', 'if pool_ratio * one_minus_slippage_tolerance >= deposit_ratio {', True),
+ ("vault-direct-withdraw-len-dropped", "C05", VN+"vault/src/contract.rs", 'if info.funds.len() != 1 || info.funds[0].denom != lp_token_denom {', 'if info.funds[0].denom != lp_token_denom {', True),
+ ("distributor-claimable-filter-claimed", "C09", L+"fee_distributor/src/state.rs", 'claimable_epochs.retain(|epoch| !epoch.available.is_empty());', 'claimable_epochs.retain(|epoch| !epoch.claimed.is_empty());', True),
+ ("incentive-get_rewards-range-exclusive", "C13", PN+"incentive/src/queries/get_rewards.rs", 'for epoch_id in first_claimable_epoch..=current_epoch {', 'for epoch_id in first_claimable_epoch..current_epoch {', True),
+ ("factory-cursor-byte-z", "C19", PN+"terraswap_factory/src/state.rs", '            .to_vec();\n        v.push(1);\n        v\n    })\n}\n\npub fn read_trios', "            .to_vec();\n        v.push(b'z');\n        v\n    })\n}\n\npub fn read_trios", True),
+ ("router-nextloan-initiator-self", "C06", VN+"vault_router/src/execute/flash_loan.rs", 'initiator: info.sender,', 'initiator: cosmwasm_std::Addr::unchecked(vault.to_string()),', True),
+ ("vault-owner-from-sender", "C16", VN+"vault/src/contract.rs", 'owner: deps.api.addr_validate(&msg.owner)?,', 'owner: deps.api.addr_validate(env.contract.address.as_str())?,', True),
+ ("incentive-open-position-fresh-list", "C11", PN+"incentive/src/execute/open_position.rs", 'let mut positions = positions.unwrap_or_default();', 'let mut positions = positions.map(|_| Vec::new()).unwrap_or_default();', True),
+ ("pair-ledger-init-duplicate-asset", "C07", PN+"terraswap_pair/src/contract.rs", 'asset_info_0.clone(),\n        asset_info_1.clone(),\n        ALL_TIME_COLLECTED_PROTOCOL_FEES,', 'asset_info_0.clone(),\n        asset_info_0.clone(),\n        ALL_TIME_COLLECTED_PROTOCOL_FEES,', True),
+ ("NEUTRAL-trio-ramp-up-commuted", "C04", PN+"stableswap_3pool/src/stableswap_math/curve.rs",
+  '.checked_sub(self.initial_amp_factor)?;\n                let amp_delta = (amp_range as u128)\n                    .checked_mul(time_delta.to_u128()?)?',
+  '.checked_sub(self.initial_amp_factor)?;\n                let amp_delta = time_delta.to_u128()?\n                    .checked_mul(amp_range as u128)?', False),
+ ("NEUTRAL-pair-compute_d-operator-mul", "C03", PN+"terraswap_pair/src/helpers.rs",
+  'let amount_a_times_coins = amount_a.checked_mul(n_coins).unwrap();\n        let amount_b_times_coins = amount_b.checked_mul(n_coins).unwrap();',
+  'let amount_a_times_coins = amount_a * n_coins;\n        let amount_b_times_coins = n_coins * amount_b;', False),
+ ("NEUTRAL-pair-mint-helper-operator-add", "C03", PN+"terraswap_pair/src/helpers.rs",
+  'swap_amount_a.checked_add(deposit_amount_a).unwrap(),\n        swap_amount_b.checked_add(deposit_amount_b).unwrap(),', 'deposit_amount_a + swap_amount_a,\n        swap_amount_b + deposit_amount_b,', False),
+ ("NEUTRAL-vault-direct-withdraw-demorgan", "C05", VN+"vault/src/contract.rs", 'if info.funds.len() != 1 || info.funds[0].denom != lp_token_denom {', 'if !(info.funds.len() == 1 && lp_token_denom == info.funds[0].denom) {', False),
+ ("NEUTRAL-pair-withdraw-extra-binding", "C01", PN+"terraswap_pair/src/commands.rs", 'let refund_amount = pool_asset.amount.checked_sub(protocol_fee)?;', 'let net_of_fees = pool_asset.amount.checked_sub(protocol_fee)?;\n            let refund_amount = net_of_fees;', False),
+ ("NEUTRAL-incentive-share-range-plus-one", "C13", PN+"incentive/src/queries/get_rewards_share.rs", 'for epoch_id in start_epoch..=current_epoch {', 'for epoch_id in start_epoch..current_epoch + 1 {', False),
+ ("NEUTRAL-incentive-claim-sum-commuted", "C12", PN+"incentive/src/claim.rs", '|| user_reward_at_epoch.checked_add(flow.claimed_amount)? > *expanded_asset_amount', '|| *expanded_asset_amount < flow.claimed_amount.checked_add(user_reward_at_epoch)?', False),
+ ("NEUTRAL-pair-slippage-flipped", "C15", PN+"terraswap_pair/src/helpers.rs",
+  '|| Decimal256::from_ratio(deposits[1], deposits[0])\n                        * one_minus_slippage_tolerance\n                        > Decimal256::from_ratio(pools[1], pools[0])',
+  '|| Decimal256::from_ratio(pools[1], pools[0])\n                        < one_minus_slippage_tolerance * Decimal256::from_ratio(deposits[1], deposits[0])', False),
+ ("NEUTRAL-distributor-claim-ok_or", "C09", L+"fee_distributor/src/commands.rs", '.ok_or_else(|| StdError::generic_err("Invalid fee"))?;', '.ok_or(StdError::generic_err("Invalid fee"))?;', False),
+ ("NEUTRAL-router-nextloan-initiator-clone", "C06", VN+"vault_router/src/execute/next_loan.rs", 'msg: to_json_binary(&ExecuteMsg::CompleteLoan {\n                        initiator,', 'msg: to_json_binary(&ExecuteMsg::CompleteLoan {\n                        initiator: initiator.clone(),', False),
+ ("NEUTRAL-vault-factory-owner-as_str", "C16", VN+"vault_factory/src/contract.rs", 'owner: deps.api.addr_validate(&msg.owner)?,', 'owner: deps.api.addr_validate(msg.owner.as_str())?,', False),
+ ("NEUTRAL-vault-burn-test-reordered", "C18", VN+"vault/src/contract.rs", 'if has_factory_token(&[msg.asset_info.clone()])\n        && msg.vault_fees.burn_fee.share > Decimal::zero()\n    {', 'if msg.vault_fees.burn_fee.share > Decimal::zero()\n        && has_factory_token(&[msg.asset_info.clone()])\n    {', False),
+ ("NEUTRAL-incentive-close-unwrap_or_else", "C11", PN+"incentive/src/execute/close_position.rs", 'let mut closed_positions = closed_positions.unwrap_or_default();', 'let mut closed_positions = closed_positions.unwrap_or_else(Vec::new);', False),
+ ("NEUTRAL-factory-cursor-byte-0", "C19", VN+"vault_factory/src/state.rs", 'v.push(1);', 'v.push(0);', False),
+ ("NEUTRAL-lair-bond-assets-binding", "C08", L+"whale_lair/src/commands.rs", 'asset::aggregate_assets(global_index.bonded_assets, vec![asset.clone()])?;', 'asset::aggregate_assets(global_index.bonded_assets, { let declared = asset.clone(); vec![declared] })?;', False),
  # neutral edits: must stay silent
  ("NEUTRAL-trio-owner-check-extracted", "C16", PN+"stableswap_3pool/src/commands.rs",
   '    let mut config: Config = CONFIG.load(deps.storage)?;\n    if deps.api.addr_validate(info.sender.as_str())? != config.owner {\n        return Err(ContractError::Std(StdError::generic_err("unauthorized")));\n    }\n\n    if let Some(owner) = owner {\n        // validate address format',
